@@ -27,7 +27,7 @@ RULES = ["C17.Stable", "C17.Reason", "C17.CloseOnce", "C17.NoHang", "C17.Release
 LIVENESS_RULES = {"C17.NoHang", "C17.Released", "C17.Terminal"}
 CHUNK = 12
 ALL_DEVS = ["OverwriteClosed", "LoopsDoneSilent", "HsRunnerDoneWaits", "StrongRefInConnLoop", "WaitConnectedBlind",
-            "SigOverwriteClosed"]
+            "SigOverwriteClosed", "SendCheckThenPark"]
 
 
 def tla_set(xs):
@@ -102,14 +102,20 @@ def emit_scenarios(ck, label, **kw):
 
 def to_harness(rows, start_id, attempts):
     out = []
-    for i, r in enumerate(rows):
+    for r in rows:
         ev2 = r["evs"][1] if len(r["evs"]) > 1 else "none"
-        at2 = "none"
+        at2s = ["none"]
         if ev2 != "none":
             at2 = r["ats"][1] if r["ats"][1] != "any" else "delay"
-        out.append({"id": start_id + i, "kind": "c17", "mode": r["mode"], "victim": "A", "phase": r["phase"],
-                    "ev1": r["evs"][0], "ev2": ev2, "at2": at2, "attempts": attempts if at2.startswith("pre:") else 1,
-                    "dc": bool(r["dc"])})
+            if r["evs"][0] == "BlockedSender" and not at2.startswith("sctp:"):
+                continue    # BlockedSender already ends with the application's close(); only its own race point is new
+            # the sender's wait point is reached once with a stale notify_one permit in hand and once without:
+            # both visits are scenarios
+            at2s = [at2 + "#1", at2 + "#2"] if at2.startswith("sctp:") else [at2]
+        for at2 in at2s:
+            out.append({"id": start_id + len(out), "kind": "c17", "mode": r["mode"], "victim": "A", "phase": r["phase"],
+                        "ev1": r["evs"][0], "ev2": ev2, "at2": at2,
+                        "attempts": attempts if at2.startswith("pre:") else 1, "dc": bool(r["dc"])})
     return out
 
 
@@ -212,7 +218,7 @@ def plan(tier):
             "emit": [("single", dict(max_events=1, wfc=0)),
                      ("media", dict(max_events=1, wfc=0, traffic=True, phases=["mediaFlowing"])),
                      ("pairs", dict(max_events=2, wfc=0, phases=["channelsOpen"],
-                                    ev1=["Close", "PeerCloseNotify", "PeerSctpAbort", "IceStop"],
+                                    ev1=["Close", "PeerCloseNotify", "PeerSctpAbort", "IceStop", "BlockedSender"],
                                     ev2=["Close"])),
                      ("rtp", dict(max_events=1, wfc=0, mode="Rtp", dc=False, phases=["offerMade", "channelsOpen"],
                                   ev1=["Close", "Drop", "IceStop"])),
@@ -446,7 +452,8 @@ def selftest():
     vlib.OUT = ck.dir
     expect = {"OverwriteClosed": "TerminalIsStable", "LoopsDoneSilent": "ReportsTerminal",
               "HsRunnerDoneWaits": "Released", "StrongRefInConnLoop": "LocalEndsClosed",
-              "WaitConnectedBlind": "NoHang", "SigOverwriteClosed": "TerminalIsStable"}
+              "WaitConnectedBlind": "NoHang", "SigOverwriteClosed": "TerminalIsStable",
+              "SendCheckThenPark": "NoHang"}
     ok = True
     for dev, prop in expect.items():
         cfg = os.path.join(vlib.SPEC, f"MC_Lifecycle_self_{dev}.gen.cfg")
